@@ -44,7 +44,7 @@ def raceFree (t : List Access) : Bool :=
   t.all (fun a => t.all (fun b => a.loc != b.loc || ok a b))
 
 /-- locations with an unsynchronised conflict today (open known findings) -/
-def knownRacy : List String := ["locales.DefaultLocales", "types.ZodLazyInternals.innerType"]
+def knownRacy : List String := ["types.ZodLazyInternals.innerType"]
 
 /-- the cells of the table that falsify `raceFree`: pairs of accesses to one location that are not `ok`
     (each unordered pair once), as `(loc, fn₁, fn₂)` -/
